@@ -1459,7 +1459,8 @@ class Gen(object):
                 val = SList(z3.K(I, z3.RealVal(0) if et == 'real' else (z3.BoolVal(False) if et == 'bool' else z3.IntVal(0)))
                             if not isinstance(et, tuple)
                             else fresh('empty', z3.ArraySort(I, sort_of(et))), z3.IntVal(0), et,
-                            z3.K(I, z3.IntVal(0)) if isinstance(et, tuple) else None)
+                            z3.K(I, z3.IntVal(0)) if isinstance(et, tuple) else None,
+                            z3.K(I, z3.K(I, z3.IntVal(0))) if isinstance(et, tuple) and isinstance(et[1], tuple) else None)
             if len(st.targets) == 1 and isinstance(st.targets[0], ast.Name) and st.targets[0].id in self.c.get('locals', {}) \
                     and isinstance(st.value, ast.ListComp) and isinstance(st.value.elt, ast.List) and not st.value.elt.elts \
                     and isinstance(val, SList):
